@@ -348,7 +348,9 @@ SEG_STYLES = [None, None] + GS.PALETTE[:8]
 
 
 def seg_strategy(newlines=True, controls=True):
-    txt = st.one_of(chars.mixed_text(8, newlines=newlines, min_size=1), chars.mixed_text(3, newlines=newlines), st.sampled_from(["\n", "a\nb", "x", chars.WIDE[0] * 2, " "]) if newlines else st.sampled_from(["x", chars.WIDE[0] * 2, " "]))
+    txt = st.one_of(chars.mixed_text(8, newlines=newlines, min_size=1), chars.mixed_text(3, newlines=newlines), st.sampled_from(["\n", "a\nb", "x", chars.WIDE[0] * 2, " "]) if newlines else st.sampled_from(["x", chars.WIDE[0] * 2, " "]),
+                    # characters at which str.splitlines() breaks but a line of segments does not (CR, VT, FF, FS, NEL, LS, PS): they are ordinary zero-width characters here
+                    st.sampled_from(["a\rb", "x\x0cy", "p\x1cq", "m\x85n", "u\u2028v", "w\u2029", "\x0b"] + (["a\r\nb", "s\u2028\nt"] if newlines else [])))
     sty = st.sampled_from(SEG_STYLES)
     plain = st.builds(lambda t, s: {"t": t, "s": s, "c": False}, txt, sty)
     if not controls:
